@@ -1,0 +1,18 @@
+//go:build !verif
+
+package node
+
+import (
+	hg "github.com/mosaicnetworks/babble/src/hashgraph"
+)
+
+// No-op twins of the simulation hooks (see zz_sim_verif.go). They compile to
+// nothing when the "verif" build tag is off.
+
+func simPick(chosen uint32, candidates []uint32) uint32 { return chosen }
+
+func simYield(n *Node, site string) {}
+
+func simRecordHeads(c *core) (bool, error) { return false, nil }
+
+func simCanonicalise(events []*hg.Event) {}
